@@ -9,6 +9,7 @@ import (
 
 	"github.com/gebn/bmc"
 	"github.com/gebn/bmc/pkg/dcmi"
+	"github.com/gebn/bmc/pkg/iana"
 	"github.com/gebn/bmc/pkg/ipmi"
 	"github.com/google/gopacket"
 
@@ -123,6 +124,18 @@ func c06Build(c c06Case) (cmd ipmi.Command, netfn, cmdno, lun byte, data []byte,
 			start = 0
 		}
 		return cmd, 0x2c, 0x07, 0, []byte{0xDC, byte(v[0]), byte(v[1]), byte(v[2]), start}, false
+	case "RawGroup": // caller-defined group-extension command: v = body code, command, body length
+		body := pattern(int(v[2]), 0x33, 1)
+		cmd = &rawCmd{op: ipmi.Operation{Function: ipmi.NetworkFunctionGroupReq, Body: ipmi.BodyCode(v[0]), Command: ipmi.CommandNumber(v[1])}, body: body}
+		return cmd, 0x2c, byte(v[1]), 0, append([]byte{byte(v[0])}, body...), false
+	case "RawOEM": // caller-defined OEM command: v = enterprise number (24 bit), command, body length
+		body := pattern(int(v[2]), 0x44, 1)
+		cmd = &rawCmd{op: ipmi.Operation{Function: ipmi.NetworkFunctionOEMReq, Enterprise: iana.Enterprise(v[0]), Command: ipmi.CommandNumber(v[1])}, body: body}
+		return cmd, 0x2e, byte(v[1]), 0, append([]byte{byte(v[0]), byte(v[0] >> 8), byte(v[0] >> 16)}, body...), false
+	case "RawNetFn": // any even NetFn 0..0x3e that has no addressing extension
+		body := pattern(int(v[2]), 0x55, 1)
+		cmd = &rawCmd{op: ipmi.Operation{Function: ipmi.NetworkFunction(v[0]), Command: ipmi.CommandNumber(v[1])}, body: body}
+		return cmd, byte(v[0]), byte(v[1]), 0, body, false
 	case "GetDeviceID":
 		return &ipmi.GetDeviceIDCmd{}, 0x06, 0x01, 0, nil, false
 	case "GetChassisStatus":
@@ -362,6 +375,22 @@ func runC06(r *rep.R) {
 	}
 	for _, c := range []string{"GetDeviceID", "GetChassisStatus", "GetSystemGUID", "GetSDRRepositoryInfo", "ReserveSDRRepository"} {
 		do(c)
+	}
+	// the message layer's addressing extensions and NetFn field through the send paths
+	for v := int64(0); v < 256; v++ {
+		do("RawGroup", v, v^0x5A, v%5)
+		do("RawOEM", v|v<<8|(255-v)<<16, v, v%4)
+	}
+	for _, ent := range []int64{0, 1, 0xFF, 0x100, 0xFFFF, 0x10000, 0x7FFFFF, 0x800000, 0xFFFFFF, 343} {
+		do("RawOEM", ent, 0x10, 2)
+	}
+	for nf := int64(0); nf < 0x40; nf += 2 {
+		if nf == 0x2c || nf == 0x2e {
+			continue
+		}
+		for _, cmdno := range []int64{0, 1, 0x7F, 0x80, 0xFF} {
+			do("RawNetFn", nf, cmdno, (nf/2)%3)
+		}
 	}
 	// setup payloads on the wire after the connection's buffer has been used
 	for hist := int64(0); hist < 4; hist++ {
